@@ -2,6 +2,7 @@ package kit
 
 import (
 	"bytes"
+	"strconv"
 	"encoding/binary"
 	"encoding/hex"
 )
@@ -42,6 +43,15 @@ func (s *Scanner) Add(secret []byte, label string) {
 	for _, v := range b64Variants(secret) {
 		s.addPat(v, label, "base64")
 	}
+	// fmt's %v / %d of a byte slice: decimal numbers separated by single blanks
+	var dec []byte
+	for i, b := range secret {
+		if i > 0 {
+			dec = append(dec, ' ')
+		}
+		dec = strconv.AppendInt(dec, int64(b), 10)
+	}
+	s.addPat(dec, label, "decimal list")
 }
 
 func (s *Scanner) addPat(p []byte, label, enc string) {
